@@ -417,6 +417,9 @@ Inductive outcome :=
 | ODupKey                        (* primary / unique key violation: the statement has no effect *)
 | OFuel.                         (* REPLACE loop out of fuel (excluded in the theorems) *)
 
+Definition is_truncate (w : pred) (ord : option (nat * bool)) (lim : option N) : bool :=
+  match w, ord, lim with PTrue, None, None => true | _, _, _ => false end.
+
 (* ---------- the iterators, generic in the editor ---------- *)
 Section Exec.
   Context {St : Type}.
@@ -520,8 +523,12 @@ Section Exec.
         | None => (ODupKey, rows)
         end
     | SDelete w ord lim =>
-        let ts := targets sch w ord lim rows in
-        (OOk (N.of_nat (length ts)) 0, e_commit (fold_left e_delete ts (e_begin rows)))
+        if is_truncate w ord lim then
+          (* DELETE FROM t without WHERE / ORDER BY / LIMIT is executed as TRUNCATE: no row editor is involved *)
+          (OOk (N.of_nat (length rows)) 0, [])
+        else
+          let ts := targets sch w ord lim rows in
+          (OOk (N.of_nat (length ts)) 0, e_commit (fold_left e_delete ts (e_begin rows)))
     end.
 End Exec.
 
@@ -538,3 +545,40 @@ Definition impl_exec (sch : schema) (rows : list row) (st : stmt) : outcome * li
 
 Definition run_history (sch : schema) (rows : list row) (h : list stmt) : list row :=
   fold_left (fun rs st => snd (impl_exec sch rs st)) h rows.
+
+(* ---------- CREATE UNIQUE INDEX / ALTER TABLE ... ADD UNIQUE KEY over existing rows ---------- *)
+(* TableData.errIfDuplicateEntryExist: rows without NULL in the indexed columns are compared through hash.HashOf of the
+   projected key.  HashOf is given the TABLE schema, so the j-th indexed value is encoded with the type of the j-th table
+   column: a string goes through that column's collation (weight string), everything else is printed.  Prefix lengths are
+   ignored here.  (Equality of the encodings stands for equality of the 64-bit hashes.) *)
+Fixpoint idx_key_eq (sch : schema) (j : nat) (cols : list nat) (r1 r2 : row) : bool :=
+  match cols with
+  | [] => true
+  | c :: cs => match val_cmp (col_coll sch j) (col r1 c) (col r2 c) with
+               | Eq => idx_key_eq sch (S j) cs r1 r2
+               | _ => false
+               end
+  end.
+
+Fixpoint dup_entry (sch : schema) (cols : list nat) (seen rows : list row) : bool :=
+  match rows with
+  | [] => false
+  | r :: rows' =>
+      if has_null cols r then dup_entry sch cols seen rows'
+      else if existsb (fun x => idx_key_eq sch 0 cols x r) seen then true
+      else dup_entry sch cols (seen ++ [r]) rows'
+  end.
+
+Definition with_unique (sch : schema) (cols : list nat) (pls : list N) : schema :=
+  {| s_pk := s_pk sch; s_uniq := s_uniq sch ++ [(cols, pls)]; s_coll := s_coll sch |}.
+
+(* Table.CreateIndex (errIfDuplicateEntryExist), then rowexec buildIndex: every stored row is inserted, in storage order and
+   as ONE batch, into an emptied copy of the table through a table editor that already knows the new index.
+   None = the statement fails with a duplicate-key error and the index is not created. *)
+Definition ddl_add_unique (sch : schema) (rows : list row) (cols : list nat) (pls : list N) : option (schema * list row) :=
+  if dup_entry sch cols [] rows then None
+  else let sch' := with_unique sch cols pls in
+       match impl_exec sch' [] (SInsert IPlain rows) with
+       | (OOk _ _, rows') => Some (sch', rows')
+       | _ => None
+       end.
